@@ -137,6 +137,12 @@ class ProcessingOracle(FOracle):
 
     def after_kernel_event(self, f):
         for nid, kind in self.kinds.items():
+            if kind == "Splitter" and f.node_spec[nid].get("blocking", True) and nid not in self.dead:
+                # one unit of work: a blocking splitter has not pulled the next pallet before the previous one left
+                pulled = len(self.book.pulls[nid])
+                done = sum(1 for p in self.book.pushes[nid] if p[5] is not None)     # pallets pushed
+                if pulled - done > 1:
+                    self.v(nid, ("Splitter", "over_capacity"), "%s holds %d pallets at once (t=%s)" % (nid, pulled - done, f.env.now))
             if kind != "Machine":
                 continue
             node = f.nodes[nid]
